@@ -49,10 +49,14 @@ type Case struct {
 	Tpl string `json:"tpl,omitempty"`
 }
 
-// Node is a loop or a probe.
+// Node is a loop, a probe, or plain text.
 type Node struct {
 	Loop  *Loop  `json:"loop,omitempty"`
 	Probe *Probe `json:"probe,omitempty"`
+	// Text is element-less output: ID({{ r1 }},{{ r2 }},…) written as text, only "text" / "tern"
+	// reads. It becomes part of the own text of the nearest enclosing element (<template> loops
+	// add no element), so a loop body can consist of text alone.
+	Text *Probe `json:"text,omitempty"`
 }
 
 // Loop is one v-for element.
@@ -278,7 +282,8 @@ func check(c Case) error {
 		return fmt.Errorf("control element missing from the output%s", ctx())
 	}
 	in := &interp{d: c.Data, u: u}
-	want := []*xm{{id: "top", why: "the wrapper element", kids: in.nodes(c.Prog)}}
+	topKids, topText := in.nodes(c.Prog)
+	want := []*xm{{id: "top", why: "the wrapper element", kids: topKids, text: topText}}
 	wf := flat(want, nil)
 	show := func() string {
 		var a, b []string
@@ -301,7 +306,9 @@ func check(c Case) error {
 		if w.id != g.ID {
 			return fmt.Errorf("marker #%d: expected %s, rendered %s%q (%s)%s", i, w, g.ID, g.Text, w.why, show())
 		}
-		if w.text != g.Text {
+		// own text is compared with all whitespace removed: where a text-only loop puts line breaks
+		// and indentation between its instances is layout (values never contain whitespace)
+		if squeeze(w.text) != squeeze(g.Text) {
 			return fmt.Errorf("marker #%d %s: text %q, expected %q (%s)%s", i, w.id, g.Text, w.text, w.why, show())
 		}
 		for k, v := range w.attrs {
@@ -337,6 +344,8 @@ func check(c Case) error {
 	}
 	return nil
 }
+
+func squeeze(s string) string { return strings.Join(strings.Fields(s), "") }
 
 func describe(d Data) string {
 	var sb strings.Builder
